@@ -443,8 +443,11 @@ class Interp:
             if seq is WILD or seq is WILD2 or not isinstance(seq, str):
                 raise WildCondition()  # iterating a dict / slot reference is outside the modelled domain
             out = []
+            parentloop = self.lookup(env, "forloop")
+            if not isinstance(parentloop, dict):
+                parentloop = {}
             for i, ch in enumerate(seq):
-                layer = Layer({n["v"]: ch, "forloop": {"counter": str(i + 1), "counter0": str(i), "first": i == 0, "last": i == len(seq) - 1}}, "for")
+                layer = Layer({n["v"]: ch, "forloop": {"counter": str(i + 1), "counter0": str(i), "first": i == 0, "last": i == len(seq) - 1, "parentloop": parentloop}}, "for")
                 out.extend(self.nodes(n["c"], env + [layer], owner, prov, parent))
             return out
         if t == "with":
@@ -485,8 +488,11 @@ class Interp:
                 seq = self.expr(env, n["l"])
                 if seq is WILD or seq is WILD2 or not isinstance(seq, str):
                     raise WildCondition()
+                parentloop = self.lookup(env, "forloop")
+                if not isinstance(parentloop, dict):
+                    parentloop = {}
                 for i, ch in enumerate(seq):
-                    b = {n["v"]: ch, "forloop": {"counter": str(i + 1), "counter0": str(i), "first": i == 0, "last": i == len(seq) - 1}}
+                    b = {n["v"]: ch, "forloop": {"counter": str(i + 1), "counter0": str(i), "first": i == 0, "last": i == len(seq) - 1, "parentloop": parentloop}}
                     layer = Layer(b, "for")
                     b2 = dict(between)
                     for k_ in b:
@@ -611,11 +617,8 @@ class Interp:
                 alias[f.dflt_var] = SlotRefModel(self, n, env, owner, prov, parent, [a for a in (f.data_var, f.dflt_var) if a] + [k_ for k_ in f.between if k_ != "forloop"])
             between = Layer(dict(f.between), "between")
             if self.mode == "isolated":
-                for k_ in list(between.vars):
-                    if k_ != "forloop" and any(k_ in l_.vars for l_ in f.env_at_tag):
-                        # property is silent on who wins between a binding around the fill and a name
-                        # already visible at the tag
-                        between.vars[k_] = WILD
+                # lexical scoping: bindings around the fill ({% for %} / {% with %} in the component body) are the
+                # innermost scope of the fill content and win over everything visible at the tag
                 fenv = list(f.env_at_tag) + [between]
                 leaked = [k_ for (li_, names_) in self.leaks if li_ is inst for k_ in names_]
                 if leaked:
